@@ -63,7 +63,11 @@ func c15Run(c *ev.Ctx, r *rand.Rand, caseN int) {
 	// far-future events
 	var all []*cons.Ev
 	all = append(all, base...)
-	for k := 0; k < 3; k++ {
+	nFar := 3
+	if caseN%5 == 2 {
+		nFar = 12
+	}
+	for k := 0; k < nFar; k++ {
 		e := &cons.Ev{}
 		e.SetEpoch(1)
 		e.SetCreator(plans[0].IDs[0])
@@ -85,6 +89,8 @@ func c15Run(c *ev.Ctx, r *rand.Rand, caseN int) {
 		capM = dag.Metric{Num: idx.Event(6 + r.Intn(8)), Size: totalSize}
 	}
 	midStop := caseN%4 == 3
+	dropRun := caseN%5 == 2 // the highest known Lamport time falls back to 0 in the middle of the run (epoch switch)
+	dropped := false
 	var warned int32
 	sem := datasemaphore.New(capM, func(a, b, cc dag.Metric) { atomic.AddInt32(&warned, 1) })
 	var mu sync.Mutex
@@ -117,7 +123,7 @@ func c15Run(c *ev.Ctx, r *rand.Rand, caseN int) {
 					return errors.New("process failed (injected)")
 				}
 				connected[e.ID()] = e
-				if e.Lamport() > highest && e.Lamport() < 90000 {
+				if e.Lamport() > highest && e.Lamport() < 90000 && !dropped {
 					highest = e.Lamport()
 				}
 				return nil
@@ -148,6 +154,9 @@ func c15Run(c *ev.Ctx, r *rand.Rand, caseN int) {
 				dl := delay()
 				go func() {
 					time.Sleep(dl)
+					mu.Lock()
+					logs = append(logs, c15log{"checked", cp, e.ID(), 0})
+					mu.Unlock()
 					if cp.failCheck {
 						checked(errors.New("check failed (injected)"))
 					} else {
@@ -164,6 +173,12 @@ func c15Run(c *ev.Ctx, r *rand.Rand, caseN int) {
 			defer mu.Unlock()
 			if highest > hMaxReturned {
 				hMaxReturned = highest
+			}
+			if dropped {
+				hMaxReturned = highest
+			}
+			if dropRun && !dropped {
+				return highest + 200000 // before the fall-back the application knows events far ahead: the far events pass
 			}
 			return highest
 		},
@@ -186,6 +201,7 @@ func c15Run(c *ev.Ctx, r *rand.Rand, caseN int) {
 		order = append(order, r.Intn(len(all)))
 	}
 	var batches []*c15batch
+	var oversize *c15batch
 	idCount := map[hash.Event]int{}
 	for i := 0; i < len(order); {
 		k := 1 + r.Intn(5)
@@ -196,6 +212,23 @@ func c15Run(c *ev.Ctx, r *rand.Rand, caseN int) {
 			b.copies = append(b.copies, &c15copy{Ev: e, batch: len(batches), pos: j, failCheck: r.Intn(12) == 0, failProc: r.Intn(12) == 0})
 		}
 		batches = append(batches, b)
+	}
+	if tightSem {
+		// one batch larger than the whole semaphore: must be refused even when the semaphore is idle
+		big := &c15batch{ordered: r.Intn(2) == 0}
+		for j := 0; j < int(capM.Num)+2; j++ {
+			e := all[r.Intn(nBase)]
+			idCount[e.ID()]++
+			big.copies = append(big.copies, &c15copy{Ev: e, batch: len(batches), pos: j})
+		}
+		at := r.Intn(len(batches) + 1)
+		batches = append(batches[:at:at], append([]*c15batch{big}, batches[at:]...)...)
+		for bi, b := range batches {
+			for _, cp := range b.copies {
+				cp.batch = bi
+			}
+		}
+		oversize = big
 	}
 	producers := 2 + r.Intn(7)
 	var stopCalled int32
@@ -224,6 +257,13 @@ func c15Run(c *ev.Ctx, r *rand.Rand, caseN int) {
 					}
 				}
 			}(w)
+		}
+		if dropRun {
+			time.Sleep(time.Duration(r.Intn(1500)) * time.Microsecond)
+			mu.Lock()
+			dropped, highest = true, 0
+			logs = append(logs, c15log{"drop", nil, hash.Event{}, 0})
+			mu.Unlock()
 		}
 		if midStop {
 			time.Sleep(time.Duration(r.Intn(2000)) * time.Microsecond)
@@ -284,8 +324,33 @@ func c15Run(c *ev.Ctx, r *rand.Rand, caseN int) {
 			}
 		}
 	}
+	afterDrop := false
+	checkedAfterDrop := map[*c15copy]bool{}
+	for _, l := range logs {
+		switch l.kind {
+		case "drop":
+			afterDrop = true
+		case "checked":
+			if afterDrop {
+				checkedAfterDrop[l.c] = true
+			}
+		case "process":
+			if checkedAfterDrop[l.c] && uint64(l.c.Lamport()) > uint64(bufLimit.Num)+1 {
+				m := desc()
+				m["event"], m["lamport"] = l.c.Name, l.c.Lamport()
+				c.Violation("far-future-event-processed-after-the-highest-lamport-fell", m)
+				return
+			}
+		}
+	}
+	if afterDrop {
+		c.Count("runs_with_highest_lamport_falling_back", 1)
+	}
 	farDrop := false
 	for li, l := range logs {
+		if l.kind == "checked" || l.kind == "drop" {
+			continue // harness-side markers, not callbacks of the processor
+		}
 		cp := l.c
 		if cp == nil {
 			cp = byID[l.id]
@@ -299,7 +364,7 @@ func c15Run(c *ev.Ctx, r *rand.Rand, caseN int) {
 		case "released":
 			rel[l.c]++
 		case "process":
-			if uint64(l.c.Lamport()) > uint64(l.h)+uint64(bufLimit.Num)+1 {
+			if !dropRun && uint64(l.c.Lamport()) > uint64(l.h)+uint64(bufLimit.Num)+1 {
 				m := desc()
 				m["event"], m["lamport"], m["highest_known"] = l.c.Name, l.c.Lamport(), l.h
 				c.Violation("far-future-event-processed", m)
@@ -326,6 +391,12 @@ func c15Run(c *ev.Ctx, r *rand.Rand, caseN int) {
 			}
 		}
 	}
+	if oversize != nil && oversize.acc {
+		m := desc()
+		m["batch_events"] = len(oversize.copies)
+		c.Violation("batch-larger-than-the-semaphore-accepted", m)
+		return
+	}
 	outOfOrderChecks, rejected := false, false
 	for _, b := range batches {
 		if !b.acc {
@@ -339,7 +410,7 @@ func c15Run(c *ev.Ctx, r *rand.Rand, caseN int) {
 				}
 			}
 			for _, l := range logs {
-				if l.c != nil && l.c.batch == b.copies[0].batch && l.c == b.copies[l.c.pos] {
+				if l.kind != "checked" && l.c != nil && l.c.batch == b.copies[0].batch && l.c == b.copies[l.c.pos] {
 					m := desc()
 					m["event"], m["callback"] = l.c.Name, l.kind
 					c.Violation("callback-for-a-rejected-batch", m)
